@@ -384,8 +384,10 @@ class CallMixin(object):
   def spec_for(self, fn, args):
     """Contract for a repo function: by owner-qualified name, or by the receiver's class."""
     u = self.reg.functions.get(self.unit)
-    if u is not None and u.aspect and (fn.qual + '@' + u.aspect) in self.reg.functions:
-      return self.reg.functions[fn.qual + '@' + u.aspect]     # callees are taken with the unit's own aspect
+    if u is not None and u.aspect:
+      for a in [u.aspect] + list(self.reg.aspect_fallback.get(u.aspect, ())):
+        if (fn.qual + '@' + a) in self.reg.functions:
+          return self.reg.functions[fn.qual + '@' + a]     # callees are taken with the unit's own aspect (or one it builds on)
     if fn.qual in self.reg.functions:
       return self.reg.functions[fn.qual]
     return None
